@@ -130,7 +130,7 @@ def build_coq():
         rc, out, err = run(['coq_makefile', '-f', '_CoqProject', '-o', 'Makefile'], cwd=COQ)
         if rc != 0:
             return False, err
-    rc, out, err = run(['timeout', '3000', 'make', f'-j{NPROC}'], cwd=COQ, timeout=3100)
+    rc, out, err = run(['timeout', '3000', 'make', '-k', f'-j{NPROC}'], cwd=COQ, timeout=3100)     # -k: one broken proof file must not hide the others
     if rc != 0:
         return False, (out + err)[-4000:]
     log(f'[build] coq ok in {time.time()-t0:.1f}s')
@@ -464,7 +464,13 @@ class Check:
     def prepare(self, need_cli=False, need_harness=True):
         ok, msg = build_coq()
         if not ok:
-            self.build_failures.append(('coq build (a proof obligation no longer checks)', msg))
+            # the development is built with make -k: this property is affected only if ITS theorem file (and so something
+            # it depends on) failed to compile; a proof of another property that no longer checks is that property's alarm
+            rc, _, _ = run(['make', '-q', f'Props/{self.prop}.vo'], cwd=COQ, timeout=300)
+            if rc == 0:
+                self.notes.append('another part of the Coq development does not compile (not a dependency of this property): ' + msg[-300:])
+            else:
+                self.build_failures.append(('coq build (a proof obligation no longer checks)', msg))
         ok, msg = build_driver()
         if not ok:
             self.build_failures.append(('model extraction/driver build', msg))
